@@ -137,7 +137,12 @@ func cmdCheck(w *World, cfg *RunCfg, prop, replay string, t0 time.Time) int {
 		if it.lemma != nil {
 			results = append(results, w.RunLemma(it.lemma, it.opts))
 		} else {
-			results = append(results, w.VerifyFunction(it.fn, it.opts))
+			r := w.VerifyFunction(it.fn, it.opts)
+			if it.opts.Frame && r.Unsupported != "" {
+				// outside the executor's subset: the structural frame rule decides this function
+				r.Obls = append(r.Obls, w.syntacticFrame(it.fn, r.Name)...)
+			}
+			results = append(results, r)
 		}
 	}
 	solveAll(w, cfg, results)
